@@ -28,6 +28,7 @@ package bytesize
 //@ props C17 C16
 //@ func ByteSize.ToString
 //@   pure
+//@   ghost sprintf-content
 //@   nopanic
 //@   ensures specUnitOf(unitRune) > 0 <==> result1 == nil
 //@   ensures result1 == nil && b >= 0 ==> len(result0) >= 2 && result0[len(result0)-1] == unitRune
